@@ -19,6 +19,7 @@ func init() {
 		})
 		MustUse(c, "R-MUSTUSE", libPkgs(c), false, true)
 		NodeSwitch(c, "R-SWITCH", c.Pkg("immutable"))
+		StackBound(c, "R-STACKBOUND", c.Pkg("immutable"))
 	})
 }
 
